@@ -23,9 +23,10 @@
 #include <memory>
 
 using pbt::Ctx; using pbt::Bytes;
+extern "C" int zckv_fd_misuse;            // lib/nonreentrant.c: close() calls that hit EBADF
 
 struct Prog {
-    int kind = 0;                         // 0 write 1 read 2 validate 3 copy 4 download 5 random access + metadata strings
+    int kind = 0;                         // 0 write 1 read 2 validate 3 copy 4 download 5 random access + metadata strings 6 pinned/advanced open (lead probe) 7 chunk matching between two files
     std::vector<int> delays;              // consumed cyclically between API calls: 0 none, 1 yield, n>1 spin n*50
     // inputs (prepared in the main thread)
     Bytes content; lib::WCfg cfg; std::vector<lib::WOp> ops;            // write
@@ -75,6 +76,25 @@ static void run_prog(Prog &p) {
             const char *e = zck_get_error(z); if (e) h = H(h, e, strlen(e));
         } else { const char *e = zck_get_error(z); if (e) h = H(h, e, strlen(e)); }
         zck_free(&z); close(fd); break; }
+    case 6: {   // advanced open: optional pins (reads[0] bit mask, reads[1] type, reads[2] length), lead probe, lead, header, getters
+        int fd = lib::mkfd(p.file); zckCtx *z = zck_create(); bool ok = zck_init_adv_read(z, fd); h = Hi(h, ok);
+        if (ok) {
+            size_t m = p.reads[0];
+            if (m & 1) h = Hi(h, zck_set_ioption(z, ZCK_VAL_HEADER_HASH_TYPE, (ssize_t)p.reads[1]));
+            if (m & 2) h = Hi(h, zck_set_soption(z, ZCK_VAL_HEADER_DIGEST, p.detail.data(), p.detail.size()));
+            if (m & 4) h = Hi(h, zck_set_ioption(z, ZCK_VAL_HEADER_LENGTH, (ssize_t)p.reads[2]));
+            p.pause(); if (m & 8) { h = Hi(h, zck_validate_lead(z)); p.pause(); if (m & 16) h = Hi(h, zck_validate_lead(z)); }
+            bool l = zck_read_lead(z); h = Hi(h, l); p.pause(); bool hd = l && zck_read_header(z); h = Hi(h, hd);
+            if (hd) { h = Hi(h, zck_get_lead_length(z)); h = Hi(h, zck_get_header_length(z)); h = Hi(h, zck_get_data_length(z)); h = Hi(h, zck_get_length(z)); h = Hi(h, zck_get_chunk_count(z)); h = Hi(h, zck_get_full_hash_type(z)); h = Hi(h, zck_get_chunk_hash_type(z)); h = Hi(h, zck_get_min_download_size());
+                      p.pause(); h = Hi(h, zck_missing_chunks(z)); h = Hi(h, zck_failed_chunks(z)); char *d = zck_get_header_digest(z); if (d) { h = H(h, d, strlen(d)); free(d); } }
+            const char *e = zck_get_error(z); if (e) h = H(h, e, strlen(e)); h = Hi(h, zck_clear_error(z));
+        }
+        zck_free(&z); close(fd); break; }
+    case 7: {
+        int sfd = lib::mkfd(p.src), tfd = lib::mkfd(p.tgt); zckCtx *s = zck_create(), *t = zck_create(); bool ok = zck_init_read(s, sfd) && zck_init_read(t, tfd); h = Hi(h, ok);
+        if (ok) { p.pause(); h = Hi(h, zck_find_matching_chunks(s, t)); p.pause(); for (zckChunk *ch = zck_get_first_chunk(t); ch; ch = zck_get_next_chunk(ch)) { h = Hi(h, zck_get_chunk_valid(ch)); h = Hi(h, zck_get_chunk_number(ch)); h = Hi(h, zck_get_chunk_start(ch)); }
+                  h = Hi(h, zck_missing_chunks(t)); zck_reset_failed_chunks(t); p.pause(); zckChunk *sc = zck_get_src_chunk(zck_get_first_chunk(t)); h = Hi(h, sc ? zck_get_chunk_number(sc) : -5); }
+        zck_free(&s); zck_free(&t); close(sfd); close(tfd); break; }
     default: {
         int tfd = lib::mkfd(p.tgt); zckCtx *z = zck_create(); bool ok = zck_init_read(z, tfd); h = Hi(h, ok);
         if (ok) { (void)!zck_find_valid_chunks(z); zck_reset_failed_chunks(z); zckDL *d = zck_dl_init(z); zckRange *r = zck_get_missing_range(z, p.limit); p.pause();
@@ -98,7 +118,7 @@ static void prop(Ctx &c) {
     size_t nt = 2 + c.draw(c.tier ? 6 : 4); std::vector<std::unique_ptr<Prog>> progs; std::string kinds;
     uint64_t same_kind = c.draw(6);            // often force several threads onto the same library path
     for (size_t i = 0; i < nt; i++) {
-        std::unique_ptr<Prog> p(new Prog()); p->kind = same_kind <= 5 && c.chance(2, 3) ? (int)same_kind : (int)c.draw(5);
+        std::unique_ptr<Prog> p(new Prog()); p->kind = c.gver >= 3 ? (same_kind <= 5 && c.chance(1, 2) ? (int)same_kind : (int)c.draw(7)) : (same_kind <= 5 && c.chance(2, 3) ? (int)same_kind : (int)c.draw(5));
         size_t nd = c.draw(6); for (size_t k = 0; k < nd; k++) p->delays.push_back((int)c.draw(3) == 0 ? 0 : (int)c.draw(3) == 1 ? 1 : (int)c.draw(40));
         gen::ZFileOpts o; o.max_chunks = 6; o.max_chunk = c.boolean() ? 400 : 40000; o.allow_empty = false;
         switch (p->kind) {
@@ -108,24 +128,32 @@ static void prop(Ctx &c) {
         case 3: { gen::ZParams q = gen::zparams(c, o); gen::ZFile B = gen::zfile_build(c, q); gen::ZParams qa = q; qa.by_ref = false; if (!qa.chunks.empty() && c.boolean()) qa.chunks[c.pick(qa.chunks.size())] = gen::chunk_content(c, 300); gen::ZFile A = gen::zfile_build(c, qa);
                   p->src = A.file; p->tgt.assign(B.file.begin(), B.file.begin() + B.h.total_size); break; }
         case 5: { gen::ZFile z = gen::zfile(c, o); p->file = z.file; if (c.chance(1, 5) && z.file.size() > 3) p->file[c.pick(p->file.size())] ^= (uint8_t)(1 + c.draw(254)); size_t nr = 1 + c.draw(12); for (size_t k = 0; k < nr; k++) p->reads.push_back(c.draw(127)); p->limit = c.boolean() ? -1 : (int)c.draw(3); break; }
+        case 6: { gen::ZFile z = gen::zfile(c, o); p->file = z.file; if (c.chance(1, 3)) p->file.resize(z.h.total_size);                    // detached-style body-less file
+                  if (c.chance(1, 3)) p->file[c.pick(std::min<size_t>(p->file.size(), z.h.total_size))] ^= (uint8_t)(1 + c.draw(254));     // damaged lead/header: the probe has something to refuse
+                  p->reads = {c.draw(31), c.chance(2, 3) ? (size_t)z.h.hash_type : c.draw(3), c.chance(2, 3) ? (size_t)z.h.total_size : c.draw(400)};
+                  p->detail = lib::hex_of(z.h.header_digest); if (c.chance(1, 4) && !p->detail.empty()) p->detail[c.pick(p->detail.size())] = "0123456789abcdefABCDEFg"[c.draw(22)]; break; }
+        case 7: { gen::ZParams q = gen::zparams(c, o); gen::ZFile B = gen::zfile_build(c, q); gen::ZParams qa = q; qa.by_ref = false; if (!qa.chunks.empty() && c.boolean()) qa.chunks[c.pick(qa.chunks.size())] = gen::chunk_content(c, 300); if (c.boolean()) qa.comp = c.boolean() ? ZCK_COMP_ZSTD : ZCK_COMP_NONE;
+                  gen::ZFile A = gen::zfile_build(c, qa); p->src = A.file; p->tgt = B.file; break; }
         default: { p->kind = 4; o.max_chunk = 300; gen::ZFile B = gen::zfile(c, o); p->tgt = B.file; for (size_t k = 0; k < B.nchunks(); k++) if (B.clen(k) && c.chance(2, 3)) std::fill(p->tgt.begin() + B.off(k), p->tgt.begin() + B.off(k) + B.clen(k), 0);
                    // the request the thread will compute is determined by the target: precompute the response
                    int fd = lib::mkfd(p->tgt); zckCtx *z = zck_create(); p->limit = c.boolean() ? -1 : 2;
                    if (zck_init_read(z, fd)) { (void)!zck_find_valid_chunks(z); zck_reset_failed_chunks(z); zckRange *r = zck_get_missing_range(z, p->limit); if (r && zck_get_range_count(r) > 0) { char *rs = zck_get_range_char(z, r); dl::Server srv; srv.file = B.file; srv.style = dl::gen_style(c, true); p->resp = srv.respond(rs ? rs : ""); free(rs); } if (r) zck_range_free(&r); }
                    zck_free(&z); close(fd); p->cuts = dl::gen_cuts(c, p->resp.body.size()); break; }
         }
-        kinds += "WRVCDA"[p->kind]; progs.push_back(std::move(p));
+        kinds += "WRVCDALM"[p->kind]; progs.push_back(std::move(p));
     }
     c.desc << nt << " threads, programs " << kinds; c.checkpoint();
     // serial baseline
+    zckv_fd_misuse = 0;
     std::vector<uint64_t> serial; for (auto &p : progs) { run_prog(*p); serial.push_back(p->result); }
     // concurrent run
     Shared sh; pthread_barrier_init(&sh.bar, nullptr, (unsigned)nt); std::vector<pthread_t> th(nt); std::vector<Arg> args(nt);
     for (size_t i = 0; i < nt; i++) { args[i] = {progs[i].get(), &sh}; if (pthread_create(&th[i], nullptr, thread_main, &args[i])) c.fail("pthread", "cannot create thread"); }
     for (size_t i = 0; i < nt; i++) pthread_join(th[i], nullptr);
     pthread_barrier_destroy(&sh.bar);
+    if (zckv_fd_misuse) c.fail("fd-lifetime", "the library closed a descriptor number that was not open (close() = EBADF, " + std::to_string(zckv_fd_misuse) + "x) while running {" + kinds + "}: between the two closes of one number another thread's open() can be handed that number and then loses its descriptor");
     bool same_path = false; for (size_t i = 0; i < nt; i++) for (size_t j = i + 1; j < nt; j++) if (kinds[i] == kinds[j]) same_path = true;
-    if (same_path) c.nontrivial(); c.label(same_path ? "same-path-concurrently" : "all-different-paths"); for (char k : std::string("WRVCDA")) if (std::count(kinds.begin(), kinds.end(), k) >= 2) c.label(std::string("2x") + k);
+    if (same_path) c.nontrivial(); c.label(same_path ? "same-path-concurrently" : "all-different-paths"); for (char k : std::string("WRVCDALM")) if (std::count(kinds.begin(), kinds.end(), k) >= 2) c.label(std::string("2x") + k);
     for (size_t i = 0; i < nt; i++) if (progs[i]->result != serial[i]) c.fail(std::string("serial-equivalence:") + kinds[i], "thread " + std::to_string(i) + " (program " + kinds[i] + ") produced different outputs when run concurrently with {" + kinds + "} than when run alone");
 }
 
